@@ -50,6 +50,22 @@ fn collect_sd_lists(v: &Value, path: &str, out: &mut Vec<(String, Vec<String>)>)
     }
 }
 
+/// digests standing in array placeholders `{"...": d}`, at any depth
+fn collect_placeholders(v: &Value, out: &mut Vec<String>) {
+    match v {
+        Value::Object(m) => { for x in m.values() { collect_placeholders(x, out); } }
+        Value::Array(a) => {
+            for x in a {
+                match x.as_object().filter(|o| o.len() == 1).and_then(|o| o.get("...")).and_then(|d| d.as_str()) {
+                    Some(d) => out.push(d.to_string()),
+                    None => collect_placeholders(x, out),
+                }
+            }
+        }
+        _ => {}
+    }
+}
+
 pub fn run(ctx: &mut Ctx, _replay: Option<&Value>) {
     ctx.report.rule = "long histories of Issuer::encode on a fixed document with equal sibling values (34 disclosable paths incl. lists inside non-disclosable sub-containers of disclosed values, nested lists of 4 below objects and below array elements, and a disclosed member value and a disclosed array element each containing a list of 4), decoy maximum cycling through 1..50, every 8th issuance reusing the same Issuer object three times: every salt decodes to >= 16 bytes; salts, disclosure digests and decoys pairwise distinct over the whole history; decoys never equal a real digest, 43 base64url characters like real digests, count in [1,max]; per digest list, the order over >= 200 issuances is not constantly the marking order; quick >= 4*10^5 decoys and >= 5*10^4 disclosures, thorough >= 6*10^6 and >= 10^6; non-trivial = every issuance (distinct by its fresh salts)".to_string();
     let (want_decoys, want_discs) = if ctx.tier_thorough { (6_000_000usize, 1_000_000usize) } else { (400_000usize, 50_000usize) };
@@ -95,6 +111,7 @@ pub fn run(ctx: &mut Ctx, _replay: Option<&Value>) {
             let payload = real::peek_jwt(parts[0]).map(|x| x.1).unwrap_or(Value::Null);
             let mut own: Vec<String> = Vec::new();
             let mut inner_lists: Vec<(String, Vec<String>)> = Vec::new();
+            let mut placeholders: Vec<String> = Vec::new();
             for (di, d) in discs.iter().enumerate() {
                 n_discs += 1;
                 let dec = real::b64url_decode(d).and_then(|b| serde_json::from_slice::<Value>(&b).ok());
@@ -113,14 +130,18 @@ pub fn run(ctx: &mut Ctx, _replay: Option<&Value>) {
                 if let Some(a) = dec.as_ref().and_then(|a| a.as_array()) {
                     let name = if discs.len() == PATHS.len() { PATHS[di] } else { PATHS[4 + di] };
                     collect_sd_lists(a.last().unwrap(), &format!("disc:{}", name), &mut inner_lists);
+                    collect_placeholders(a.last().unwrap(), &mut placeholders);
                 }
             }
             let mut lists = Vec::new();
             collect_sd_lists(&payload, "", &mut lists);
             lists.extend(inner_lists);
-            // decoys: top-level digests that belong to no disclosure
-            let top: Vec<String> = lists.iter().find(|l| l.0.is_empty()).map(|l| l.1.clone()).unwrap_or_default();
-            let drawn: Vec<&String> = top.iter().filter(|d| !own.contains(d)).collect();
+            // decoys: the digests that belong to no disclosure, wherever they stand (any `_sd` list or array
+            // placeholder of the payload or of a disclosed value)
+            collect_placeholders(&payload, &mut placeholders);
+            let everywhere: Vec<String> = lists.iter().flat_map(|l| l.1.iter().cloned()).chain(placeholders.into_iter()).collect();
+            let drawn: Vec<&String> = everywhere.iter().filter(|d| !own.contains(d)).collect();
+            if lists.iter().any(|l| !l.0.is_empty() && l.1.iter().any(|d| !own.contains(d))) { ctx.report.bump("issuances-with-decoys-outside-top-level-sd"); }
             if drawn.is_empty() || drawn.len() as i32 > max {
                 ctx.report.diff("property", "Issuer::encode", "decoy:count-out-of-range", &case, json!({"max": max, "drawn": drawn.len()}));
             }
